@@ -228,7 +228,13 @@ func soGenName(rng *rand.Rand, pat string) string {
 
 func implSoLocMatch(line string) string {
 	_, a := parseCase(line)
-	m, raw := soAsk("match " + a["pat"] + " " + a["loc"])
+	dash := func(h string) string {
+		if h == "" {
+			return "-"
+		}
+		return h
+	}
+	m, raw := soAsk("match " + dash(a["pat"]) + " " + dash(a["loc"]))
 	if m == nil {
 		return raw
 	}
@@ -299,13 +305,16 @@ func implSoStore(line string) string {
 	if a["retry"] != "-" {
 		args = append(args, hexs("--error-retry="+a["retry"]))
 	}
+	if a["ti"] == "1" {
+		args = append(args, hexs("--trust-insecure"))
+	}
 	args = append(args, hexs("-n"), hexs(a["n"]))
 	loc := string(unhx(a["loc"]))
 	if fi, err := os.Stat(loc); a["sname"] == "" && (err != nil || !fi.IsDir()) && strings.HasPrefix(loc, "/") {
 		os.MkdirAll(loc, 0755)
 		defer os.RemoveAll(loc)
 	}
-	m, raw := soAsk("store " + hexs(soConfigJSON(ents)) + " " + a["loc"] + " " + strings.Join(args, ","))
+	m, raw := soAsk("store " + hexs(soConfigJSON(ents)) + " " + hexs(loc) + " " + strings.Join(args, ","))
 	if m == nil {
 		return raw
 	}
@@ -359,7 +368,7 @@ func implSoIndex(line string) string {
 			defer os.RemoveAll(d)
 		}
 	}
-	m, raw := soAsk("index " + hexs("{}") + " " + a["loc"])
+	m, raw := soAsk("index " + hexs("{}") + " " + hexs(loc))
 	if m == nil {
 		return raw
 	}
@@ -491,6 +500,12 @@ func implSoSrv(line string) string {
 		cmdName = "chunk-server"
 	}
 	args := []string{"--config", conf, cmdName, "-s", storeDir, "-l", addr}
+	if chunkKind && a["sf"] == "1" { // the stores come from a store file
+		sf := filepath.Join(dir, "stores.json")
+		b, _ := json.Marshal(map[string]any{"stores": []string{storeDir}})
+		os.WriteFile(sf, b, 0644)
+		args = []string{"--config", conf, cmdName, "--store-file", sf, "-l", addr}
+	}
 	boolArg := func(key, long, short string) {
 		switch a[key] {
 		case "1":
@@ -686,8 +701,8 @@ func storeOptsServers(cfg Config, rep *Report, m *Model, rng *rand.Rand) {
 		fauth := soPick(rng, "-", "-", secretF, secretF, "")
 		eauth := soPick(rng, "-", secretE, secretE, "")
 		tri := func() string { return soPick(rng, "-", "-", "0", "1", "1") }
-		line := fmt.Sprintf("so.srv kind=%s fauth=%s eauth=%s w=%s svw=%s svr=%s u=%s cfgsv=%d cfgu=%d other=%d ts=%d glob=%d short=%d seed=%d",
-			kind, fauth, eauth, tri(), tri(), tri(), tri(), rng.Intn(2), rng.Intn(2), rng.Intn(2), rng.Intn(2), rng.Intn(4)/3, rng.Intn(2), rng.Int63n(1<<40))
+		line := fmt.Sprintf("so.srv kind=%s fauth=%s eauth=%s w=%s svw=%s svr=%s u=%s cfgsv=%d cfgu=%d other=%d ts=%d glob=%d short=%d sf=%d seed=%d",
+			kind, fauth, eauth, tri(), tri(), tri(), tri(), rng.Intn(2), rng.Intn(2), rng.Intn(2), rng.Intn(2), rng.Intn(4)/3, rng.Intn(2), rng.Intn(3)/2, rng.Int63n(1<<40))
 		_, a := parseCase(line)
 		rep.Count(line, true, "so.srv:"+kind, "so.srv:auth-flag="+b01(a["fauth"] != "-" && a["fauth"] != "")+",env="+b01(a["eauth"] != "-" && a["eauth"] != ""),
 			"so.srv:w="+a["w"], "so.srv:svw="+a["svw"]+",svr="+a["svr"], "so.srv:u="+a["u"]+",cfgu="+a["cfgu"])
@@ -833,8 +848,8 @@ func storeOptsStores(cfg Config, rep *Report, m *Model, rng *rand.Rand) {
 		}
 		scheme, sname, _, cwd := soParams(loc)
 		line := buildCase("so.store", kv{"scheme": scheme, "sname": sname, "cwd": cwd, "loc": hx([]byte(loc)), "ents": strings.Join(es, ";"),
-			"skip": b01(rng.Intn(4) == 0), "retry": soPick(rng, "-", "-", "0", "5"), "n": fmt.Sprint(1 + rng.Intn(20))},
-			"scheme", "sname", "cwd", "loc", "ents", "skip", "retry", "n")
+			"skip": b01(rng.Intn(4) == 0), "retry": soPick(rng, "-", "-", "0", "5"), "n": fmt.Sprint(1 + rng.Intn(20)), "ti": b01(rng.Intn(4) == 0)},
+			"scheme", "sname", "cwd", "loc", "ents", "skip", "retry", "n", "ti")
 		res := implSoStore(line)
 		tag := strings.Fields(res + " ?")[0]
 		if strings.HasPrefix(res, "ok") {
